@@ -22,7 +22,7 @@ ID = 'C07'
 PROFILES = ['dev']
 REPLAY_PROFILES = ['dev', 'release']
 BUDGET = 64
-TIME_LIMIT = {'quick': 420, 'thorough': 3300}
+TIME_LIMIT = {'quick': 900, 'thorough': 3300}
 
 def jobs(tier, seed, report):
     nmax = 6 if tier == 'quick' else 8
